@@ -490,9 +490,6 @@ func classifyStep(before *model, real rstate) string {
 	b.clipped = false
 	b.step()
 	want := modelState(b)
-	if b.clipped && real.a != want.a {
-		return keyStepWrap
-	}
 	if real.prop != want.prop {
 		t := before.clone()
 		for i := range t.v {
@@ -500,10 +497,15 @@ func classifyStep(before *model, real rstate) string {
 		}
 		top := t.argmax()
 		for i := range t.v {
-			if i != top && t.v[i].a == t.v[top].a {
-				return keyStepTie
+			if i != top && t.v[i].a == t.v[top].a && int8(i) == real.prop {
+				return keyStepTie // the implementation chose another validator of the same (top) priority
 			}
 		}
+	}
+	if b.clipped && real.a != want.a {
+		return keyStepWrap
+	}
+	if real.prop != want.prop {
 		return keyStepProp
 	}
 	return keyStepAccum
